@@ -8,6 +8,15 @@ func c06CookieOctet(c byte) bool {
 	return c == 0x21 || (c >= 0x23 && c <= 0x2b) || (c >= 0x2d && c <= 0x3a) || (c >= 0x3c && c <= 0x5b) || (c >= 0x5d && c <= 0x7e)
 }
 
+// table form of c06CookieOctet: a lookup by a symbolic byte is one term, where
+// the chain of comparisons would fork the path.
+var c06Octet = func() (t [256]bool) {
+	for i := range t {
+		t[i] = c06CookieOctet(byte(i))
+	}
+	return
+}()
+
 func c06HasByte(b []byte, x byte) bool {
 	for _, c := range b {
 		if c == x {
@@ -36,12 +45,12 @@ func vhC06RequestCookies() {
 			vAssume(!c06HasByte(k, ';') && !c06HasByte(v, ';'))
 		}
 		for _, c := range k {
-			if !c06CookieOctet(c) || c == '=' {
+			if !c06Octet[c] || c == '=' {
 				octets = false
 			}
 		}
 		for _, c := range v {
-			if !c06CookieOctet(c) {
+			if !c06Octet[c] {
 				octets = false
 			}
 		}
@@ -62,9 +71,26 @@ func vhC06RequestCookies() {
 	}
 	wire := append([]byte(nil), h.Peek(HeaderCookie)...)
 	var srv RequestHeader
+	if vBool("serverHeaderReused") {
+		// the server's header object served an earlier request with cookies
+		srv.SetBytesKV(strCookie, []byte("session=abc; theme=dark; admin=\"x"))
+		srv.collectCookies()
+		srv.Reset()
+	}
 	srv.SetBytesKV(strCookie, wire)
 	srv.collectCookies()
 	vAssert("never-an-additional-cookie", len(srv.cookies) <= len(set))
+	// a reused header object sees what a fresh one sees
+	var fresh RequestHeader
+	fresh.SetBytesKV(strCookie, wire)
+	fresh.collectCookies()
+	same := len(fresh.cookies) == len(srv.cookies)
+	for i := 0; i < len(fresh.cookies) && i < len(srv.cookies); i++ {
+		if string(fresh.cookies[i].key) != string(srv.cookies[i].key) || string(fresh.cookies[i].value) != string(srv.cookies[i].value) {
+			same = false
+		}
+	}
+	vAssert("reused-header-sees-the-same-cookies", same)
 	if octets {
 		ok := len(srv.cookies) == len(set)
 		if ok {
@@ -76,4 +102,130 @@ func vhC06RequestCookies() {
 		}
 		vAssert("cookie-octets-round-trip", ok)
 	}
+}
+
+
+// vhC06ResponseCookie: a Set-Cookie built from arbitrary key / value / domain
+// / path bytes and arbitrary flags parses back (Cookie.ParseBytes of what
+// Cookie.AppendBytes wrote, through ResponseHeader.SetCookie) with exactly the
+// attributes that were set: a string argument never adds Secure, HttpOnly,
+// SameSite, Partitioned, Domain, Path or Max-Age.
+func vhC06ResponseCookie() {
+	var c Cookie
+	key := c05Sym("key", vParam("keyLen", 1))
+	val := c05Sym("val", vParam("valLen", 2))
+	attr := vChoose("stringAttribute", 3) // none, domain, path (one at a time keeps the product small)
+	setDomain, setPath := attr == 1, attr == 2
+	var dom, path []byte
+	c.SetKeyBytes(key)
+	c.SetValueBytes(val)
+	if setDomain {
+		dom = c05Sym("domain", vParam("valLen", 2))
+		c.SetDomainBytes(dom)
+	}
+	if setPath {
+		// a path hole behind "/%" so that percent-escapes are in reach
+		hole := c05Sym("path", vParam("pathLen", 2))
+		if vBool("pathEscape") {
+			path = append([]byte("/%"), hole...)
+		} else {
+			path = append([]byte("/"), hole...)
+		}
+		if vBool("pathAsString") {
+			c.SetPath(string(path))
+		} else {
+			c.SetPathBytes(path)
+		}
+	}
+	// flag combinations (independent of the string arguments): a small covering table
+	type flags struct {
+		secure, httpOnly, part bool
+		ss                     CookieSameSite
+		maxAge                 int
+	}
+	table := [...]flags{
+		{}, {secure: true, httpOnly: true}, {part: true}, {httpOnly: true, maxAge: 5},
+		{ss: CookieSameSiteDefaultMode}, {ss: CookieSameSiteLaxMode, maxAge: -1}, {ss: CookieSameSiteStrictMode, secure: true}, {ss: CookieSameSiteNoneMode},
+	}
+	f := table[vChoose("flags", len(table))]
+	secure, httpOnly, part, ss, maxAge := f.secure, f.httpOnly, f.part, f.ss, f.maxAge
+	c.SetSecure(secure)
+	c.SetHTTPOnly(httpOnly)
+	c.SetPartitioned(part)
+	if part {
+		secure, setPath = true, true // documented: Partitioned forces Secure and Path=/
+	}
+	c.SetSameSite(ss)
+	if ss == CookieSameSiteNoneMode {
+		secure = true // documented: SameSite=None forces Secure
+	}
+	c.SetMaxAge(maxAge)
+
+	var h ResponseHeader
+	h.SetCookie(&c)
+	wire := append([]byte(nil), h.PeekCookie(string(c.Key()))...)
+	if len(wire) == 0 {
+		wire = append([]byte(nil), c.Cookie()...)
+	}
+	vNote(string(wire))
+	nAttrs, nSemi := 0, 0
+	for _, on := range []bool{maxAge != 0, len(c.Domain()) > 0, len(c.Path()) > 0, httpOnly, secure, ss != CookieSameSiteDisabled, part} {
+		if on {
+			nAttrs++
+		}
+	}
+	for _, b := range wire {
+		if b == ';' {
+			nSemi++
+		}
+	}
+	vAssert("semicolons-only-separate-the-attributes-set", nSemi == nAttrs)
+	var p Cookie
+	err := p.ParseBytes(wire)
+	if err != nil {
+		return // rejected: nothing was delivered
+	}
+	vAssert("no-secure-unless-set", p.Secure() == secure)
+	vAssert("no-httponly-unless-set", p.HTTPOnly() == httpOnly)
+	vAssert("no-partitioned-unless-set", p.Partitioned() == part)
+	vAssert("samesite-as-set", p.SameSite() == ss)
+	wantAge := maxAge
+	if wantAge < 0 {
+		wantAge = 0
+	}
+	vAssert("max-age-as-set", p.MaxAge() == wantAge)
+	vAssert("no-domain-unless-set", len(p.Domain()) == 0 || (setDomain && len(c.Domain()) > 0))
+	vAssert("no-path-unless-set", len(p.Path()) == 0 || (setPath && len(c.Path()) > 0))
+	vAssert("no-expiry-unless-set", p.Expire().Equal(CookieExpireUnlimited))
+	// cookie-octet inputs round-trip unchanged
+	octets := len(key) > 0
+	for _, b := range key {
+		if !c06Octet[b] || b == '=' {
+			octets = false
+		}
+	}
+	for _, b := range val {
+		if !c06Octet[b] {
+			octets = false
+		}
+	}
+	for _, b := range dom {
+		if !c06Octet[b] {
+			octets = false
+		}
+	}
+	pathOctets := true
+	for _, b := range c.Path() {
+		if !c06Octet[b] {
+			pathOctets = false
+		}
+	}
+	// implications instead of branches: octets / pathOctets are terms over the
+	// symbolic bytes, branching on them would only multiply the paths
+	kvSame := string(p.Key()) == string(key) && string(p.Value()) == string(val)
+	vAssert("octets-key-value-round-trip", !octets || kvSame)
+	domSame := string(p.Domain()) == string(dom)
+	vAssert("octets-domain-round-trip", !octets || !setDomain || domSame)
+	pathSame := string(p.Path()) == string(c.Path())
+	vAssert("path-round-trip", !octets || !setPath || !pathOctets || pathSame)
 }
